@@ -623,6 +623,17 @@ def install(ex):
         src.items = []
         return UNIT
 
+    @M(r'^String::from_utf8$')
+    def string_from_utf8(ex, c, a):
+        # UTF-8 validity of a symbolic byte string is not encoded: an empty vector is valid; for a non-empty one both outcomes are explored
+        # (over-approximation - a violation that depends on the choice is settled by the native replay)
+        lst = a[0]
+        if isinstance(lst, ListV) and len(lst.items) == 0:
+            return ok(Agg('String', {0: lst}))
+        if ex.choose(['utf8-valid', 'utf8-invalid']) == 'utf8-valid':
+            return ok(Agg('String', {0: lst}))
+        return err(Opaque('FromUtf8Error'))
+
     @M(r'^Vec::<.*>::extend_from_slice$')
     def list_extend_from_slice(ex, c, a):
         a[0].get().items.extend(clone_val(x) for x in deref(a[1]).items)
